@@ -211,10 +211,19 @@ class WebSocketReader:
         msg: WSMessage
         if opcode in {OP_CODE_TEXT, OP_CODE_BINARY, OP_CODE_CONTINUATION}:
             # Validate continuation frames before processing
-            if opcode == OP_CODE_CONTINUATION and self._opcode == OP_CODE_NOT_SET:
+            if opcode == OP_CODE_CONTINUATION:
+                if self._opcode == OP_CODE_NOT_SET:
+                    raise WebSocketError(
+                        WSCloseCode.PROTOCOL_ERROR,
+                        "Continuation frame for non started message",
+                    )
+            elif self._opcode != OP_CODE_NOT_SET:
+                # A message is in progress (even if all its fragments were
+                # empty so far): only continuation frames may follow.
                 raise WebSocketError(
                     WSCloseCode.PROTOCOL_ERROR,
-                    "Continuation frame for non started message",
+                    "The opcode in non-fin frame is expected "
+                    f"to be zero, got {opcode!r}",
                 )
 
             # load text/binary
@@ -229,14 +238,6 @@ class WebSocketReader:
             if opcode == OP_CODE_CONTINUATION:
                 opcode = self._opcode
                 self._opcode = OP_CODE_NOT_SET
-            # previous frame was non finished
-            # we should get continuation opcode
-            elif has_partial:
-                raise WebSocketError(
-                    WSCloseCode.PROTOCOL_ERROR,
-                    "The opcode in non-fin frame is expected "
-                    f"to be zero, got {opcode!r}",
-                )
 
             assembled_payload: bytes | bytearray
             if has_partial:
